@@ -12,7 +12,8 @@
 //   through the public API (QueryBuilder):
 //       node    insert().nodes().values([l])          (count 1, no alias)
 //       values  insert().values([l]).ids(id)          (id = an existing node or edge)
-//       edge    insert().edges().from(f).to(t)        (existing nodes, no values)
+//       edge    insert().edges().from(f).to(t)        (existing nodes, no values; 1 in 10 with an endpoint that is not a node:
+//                                                      the query fails = the model's None, no record may change)
 //   the database is dropped;
 //   POST  = the raw records of the file, read through VStorage<FileStorage> only.
 // Case line for the extracted model (extract/m_ops.ml):   ops run <op> x<file image>
@@ -178,14 +179,31 @@ fn one_case(rng: &mut Rng, path: &str, hwm: &mut u64, log: &mut Vec<String>, has
         o.bump(&format!("insert_values:kvs={}", l.len()));
         nontrivial = replaced > 0 || ool > 0;
     } else {
-        let f = *rng.pick(&live.nodes);
-        let t = if rng.chance(1, 6) { f } else { *rng.pick(&live.nodes) };
+        let mut f = *rng.pick(&live.nodes);
+        let mut t = if rng.chance(1, 8) { f } else { *rng.pick(&live.nodes) };
+        if t == f && live.nodes.len() > 1 && !rng.chance(1, 8) { while t == f { t = *rng.pick(&live.nodes); } }
+        // 1 case in 10: an endpoint that is NOT a node (a slot beyond the capacity, a removed slot or the slot of an edge):
+        // the model's validate_node answers None and writes nothing, the query must fail and leave every record as it was
+        let invalid = rng.chance(1, 10);
+        if invalid {
+            let top = elems.iter().map(|x| x.unsigned_abs() as i64).max().unwrap_or(0);
+            let mut cands: Vec<i64> = vec![top + 1, top + 1 + rng.below(5) as i64];
+            cands.extend(live.edges.iter().map(|e| -e));
+            cands.extend((1..=top).filter(|i| !elems.iter().any(|x| x.unsigned_abs() as i64 == *i)));
+            let bad = *rng.pick(&cands);
+            if rng.chance(1, 2) { f = bad; } else { t = bad; }
+        }
         ool = 0;
         op = format!("(edge {} {})", ihex(f), ihex(t));
         let r = db.exec_mut(QueryBuilder::insert().edges().from(DbId(f)).to(DbId(t)).query());
-        ret = match &r { Ok(res) => format!("id {}", res.elements.first().map(|e| ihex(e.id.0)).unwrap_or("?".into())), Err(e) => format!("err {}", errkind(e)) };
+        ret = match &r {
+            Ok(res) => format!("id {}", res.elements.first().map(|e| ihex(e.id.0)).unwrap_or("?".into())),
+            // the model's `None` (a validate_node failed): the kind of the error is counted, not compared
+            Err(e) => { o.bump(&format!("insert_edge:rejected({})", errkind(e))); "none".to_string() }
+        };
         o.bump("kind:insert_edge");
-        o.bump(if pop { "insert_edge:free-list-pop" } else { "insert_edge:new-slot(grow)" });
+        if invalid { o.bump("insert_edge:endpoint-not-a-node"); }
+        else { o.bump(if pop { "insert_edge:free-list-pop" } else { "insert_edge:new-slot(grow)" }); }
         if f == t { o.bump("insert_edge:self-loop"); }
         nontrivial = true;
     }
